@@ -16,9 +16,10 @@
 (* property being checked.  Several traces are concatenated; a "reset"     *)
 (* line starts a new one.                                                  *)
 (***************************************************************************)
-EXTENDS Props, Json, IOUtils
+EXTENDS ExtWorld, Json, IOUtils
 
 Trace == ndJsonDeserialize(IOEnv.VERIF_TRACE)
+NoCfg == <<>>   \* traces carry their configuration in every state (cfg # "static")
 
 VARIABLES l,        \* index of the last consumed trace line
           fails,    \* names of the checks that failed on line l
@@ -104,11 +105,21 @@ FailedIsNoop(pre, a, res, post) ==
     IF a.k \in {"Begin", "End"} \/ res.out # "err" THEN {}
     ELSE IF StateDiffs(pre, post) # {} THEN {<<"C11:FailedIsNoop", "">>} ELSE {}
 
-PropChecks(g, pre, a, res, post) ==
-    FailedIsNoop(pre, a, res, post) \cup (IF Modelled(a) THEN StepChecks(g, pre, a, res, post) ELSE C05Checks(a, res))
+\* C01 needs the external world (custody): only behaviours of families that script it (Ext* lines) qualify
+WithWorld(fam) == fam \in {"econ", "bulk", "fees"}
+ExtAct(a) == a.k \in {"ExtDeposit", "ExtExec", "ExtMine"}
+\* an ExtExec line must pay out exactly the batch the hub holds (otherwise the script is inconsistent)
+ExecConsistent(pre, a) ==
+    a.k # "ExtExec" \/ \E b \in pre.ch[a.chain].bat : b.tok = a.ev.tok /\ b.n = a.ev.bn /\ a.paid = SumOver(b.txs, LAMBDA tr : tr.a)
+
+PropChecks(g, xw, fam, pre, a, res, post) ==
+       FailedIsNoop(pre, a, res, post)
+  \cup (IF Modelled(a) THEN StepChecks(g, pre, a, res, post) \cup C01Step(pre, a, post) ELSE C05Checks(a, res))
+  \cup (IF WithWorld(fam) /\ ~Solvent(post, xw) THEN {<<"C01:Solvency", "">>} ELSE {})
+  \cup (IF ~ExecConsistent(pre, a) THEN {<<"infra:ExecInconsistent", "">>} ELSE {})
 
 \* ---------------------------------------------------------------- the trace automaton
-InitHist == [cfg |-> <<>>, pre |-> <<>>, g |-> <<>>, n |-> 0, id |-> "", viol |-> {}, cov |-> <<>>]
+InitHist == [cfg |-> <<>>, pre |-> <<>>, g |-> <<>>, xw |-> <<>>, fam |-> "", n |-> 0, id |-> "", viol |-> {}, cov |-> <<>>]
 
 \* coverage counters: how often each kind of step / outcome was seen (anti-vacuity evidence)
 Bump(cov, key) == Put(cov, key, Get(cov, key, 0) + 1)
@@ -120,7 +131,8 @@ ConsumeReset ==
     /\ l < Len(Trace) /\ Trace[l + 1].k = "reset"
     /\ LET cfg == CfgOf(Trace[l + 1])
            st0 == StateOf(Trace[l + 1].post, cfg)
-       IN hist' = [hist EXCEPT !.cfg = cfg, !.pre = st0, !.g = GhostInit(st0), !.n = hist.n + 1, !.id = Trace[l + 1].id]
+       IN hist' = [hist EXCEPT !.cfg = cfg, !.pre = st0, !.g = GhostInit(st0), !.xw = XwInit(st0), !.fam = Trace[l + 1].family,
+                               !.n = hist.n + 1, !.id = Trace[l + 1].id]
     /\ fails' = {}
     /\ l' = l + 1
 
@@ -132,8 +144,9 @@ ConsumeStep ==
             /\ hist' = [hist EXCEPT !.viol = @ \cup {<<hist.id, line.i, f[1], f[2]>> : f \in fails'},
                                     !.cov = Bump(@, CovKey(line.act, line.res))]
        ELSE LET post == StateOf(line.post, hist.cfg)
-            IN /\ fails' = ConfChecks(hist.pre, line.act, line.res, post) \cup PropChecks(hist.g, hist.pre, line.act, line.res, post)
-               /\ hist' = [hist EXCEPT !.pre = post,
+                xw2  == IF ExtAct(line.act) /\ WithWorld(hist.fam) THEN XwApply(hist.xw, line.act) ELSE hist.xw
+            IN /\ fails' = ConfChecks(hist.pre, line.act, line.res, post) \cup PropChecks(hist.g, xw2, hist.fam, hist.pre, line.act, line.res, post)
+               /\ hist' = [hist EXCEPT !.pre = post, !.xw = xw2,
                                        !.g = IF Modelled(line.act) THEN GhostNext(hist.g, hist.pre, line.act, line.res, post) ELSE hist.g,
                                        !.viol = @ \cup {<<hist.id, line.i, f[1], f[2]>> : f \in fails'},
                                        !.cov = Bump(@, CovKey(line.act, line.res))]
